@@ -207,7 +207,8 @@ def split_args(s):
 
 
 def parse_strace(path):
-    """Yield (lineno, tid, name, args, ret, errno) in completion order."""
+    """Return (lineno, tid, name, args, ret, errno, line) in completion order
+    (close: in entry order)."""
     pending = {}
     calls = []
     with open(path, errors="replace") as fh:
@@ -221,11 +222,20 @@ def parse_strace(path):
                 continue
             u = _unf_re.match(rest)
             if u:
-                pending[tid] = (u.group(1), u.group(2))
+                if u.group(1) == "close":
+                    # close releases the descriptor when it is ENTERED (another
+                    # thread can be handed the same number before close has
+                    # returned): it takes effect at its entry line.
+                    calls.append((no, tid, "close", split_args(u.group(2)), 0, None, line))
+                    pending[tid] = ("close!", "")
+                else:
+                    pending[tid] = (u.group(1), u.group(2))
                 continue
             r = _res_re.match(rest)
             if r:
                 name, head = pending.pop(tid, (r.group(1), ""))
+                if name == "close!":
+                    continue
                 rest = "%s(%s%s" % (name, head, r.group(2))
             c = _call_re.match(rest)
             if not c:
@@ -882,6 +892,8 @@ def run(ctx):
         "saves": saves, "reader_observations": reads,
         "syscalls_seen": sum(sc.info.get("syscalls", 0) for sc in tr),
         "scenarios": [dict(sc.desc(), events=len(sc.events),
+                           **({"left_behind": [[os.path.basename(a), b] for a, b in sc.info.get("preexisting", [])]}
+                              if sc.pre is not None else {}),
                            sizes=sc.sizes if len(sc.sizes) <= 30 else
                            {"count": len(sc.sizes), "min": min(sc.sizes), "max": max(sc.sizes), "first": sc.sizes[:8]})
                       for sc in scs],
